@@ -8,7 +8,7 @@ CONSTANTS
   Sizes = {2, 3}
   NameSet = {"f"}
   ModSet = {"a"}
-  Maxes = {5, 11}
+  Maxes = {6}
   ExSets = {{"a"}}
   TsSet = {100, 5}
   CtlOps = {"enable", "disable", "max"}
